@@ -26,14 +26,16 @@ MAX_PATHS = 3000000
 
 
 class State:
-    __slots__ = ('pc', 'events', 'lens', 'iters', 'niter', 'ncall')
+    __slots__ = ('pc', 'events', 'lens', 'iters', 'niter', 'ncall', 'heap', 'facts')
 
     def __init__(self):
         self.pc, self.events, self.lens, self.iters, self.niter, self.ncall = [], [], {}, {}, 0, 0
+        self.heap, self.facts = {}, {}
 
     def copy(self):
         s = State()
         s.pc, s.events, s.lens, s.iters, s.niter, s.ncall = list(self.pc), list(self.events), dict(self.lens), dict(self.iters), self.niter, self.ncall
+        s.heap, s.facts = dict(self.heap), dict(self.facts)
         return s
 
 
@@ -76,11 +78,12 @@ def parse_program(txt):
 
 
 class Exec:
-    def __init__(self, prog, enums, structs, max_len=2, summaries=(), callback_ret=None, len_bounds=None):
+    def __init__(self, prog, enums, structs, max_len=2, summaries=(), callback_ret=None, len_bounds=None, opaque=()):
         self.prog, self.enums, self.structs = prog, enums, structs
         self.max_len = max_len
         self.len_bounds = len_bounds or {}       # regex on vector path -> max length
         self.summaries = summaries               # regexes of callee names replaced by the induction hypothesis
+        self.opaque = opaque                     # regexes of crate callees recorded as events ('opaque', name, args), result unit
         self.memo = {}
         self.closures = {}
         for f in prog.fns:
@@ -88,6 +91,7 @@ class Exec:
                 m = re.search(r'\{closure@([^}]*)\}', f.params[0][1])
                 self.closures.setdefault(m.group(1), f)
         self.npaths = 0
+        self.panics = []
 
     # ------------------------------------------------------------------------------------------------- symbolic heap
     def obj(self, path, ty=None):
@@ -104,6 +108,8 @@ class Exec:
             return self.memo.setdefault(path, z3.Int(path))
         if t == 'bool':
             return self.memo.setdefault(path, z3.Bool(path))
+        if t in ('String', '&String', '&str', '&&str'):
+            return self.memo.setdefault(path, z3.String(path))
         if t.startswith('(') and t.endswith(')') and ',' in t:
             comps = _split_top(ty.strip()[1:-1])
             return ('tuple', [self.leaf('%s.%d' % (path, k), c) for k, c in enumerate(comps)])
@@ -111,7 +117,7 @@ class Exec:
 
     def disc(self, v, st):
         if isinstance(v, tuple) and v[0] == 'enum':
-            names = {'ControlFlow': CF, 'Option': OPT}.get(v[1]) or self.enums.get(v[1])
+            names = {'ControlFlow': CF, 'Option': OPT, 'Entry': ['Occupied', 'Vacant']}.get(v[1]) or self.enums.get(v[1])
             if names is None or v[2] not in names:
                 raise Unsupported('discriminant of %r' % (v[:3],))
             return z3.IntVal(names.index(v[2]))
@@ -151,7 +157,10 @@ class Exec:
         if s.startswith('(') and mir.Interp._match(s, 0) == len(s) - 1:
             inner = s[1:-1].strip()
             if inner.startswith('*'):
-                return self.place(inner[1:], env, st)
+                v = self.place(inner[1:], env, st)
+                if isinstance(v, tuple) and v[0] == 'cell':
+                    return st.heap[v[1]]
+                return v
             if inner.startswith('('):
                 e = mir.Interp._match(inner, 0)
                 head, rest = inner[:e + 1], inner[e + 1:]
@@ -166,10 +175,15 @@ class Exec:
                 return self.downcast(base, m.group(1))
             m = re.match(r'^\.(\d+): (.*)$', rest, re.S)
             if m:
+                if isinstance(base, Obj) and ('field', base.path, int(m.group(1))) in st.heap:
+                    return st.heap[('field', base.path, int(m.group(1)))]
                 return self.field(base, int(m.group(1)), m.group(2))
             raise Unsupported('place ' + s)
         if s.startswith('*'):
-            return self.place(s[1:], env, st)
+            v = self.place(s[1:], env, st)
+            if isinstance(v, tuple) and v[0] == 'cell':
+                return st.heap[v[1]]
+            return v
         raise Unsupported('place ' + s)
 
     def downcast(self, base, variant):
@@ -185,6 +199,8 @@ class Exec:
         if isinstance(base, tuple) and base[0] in ('tuple', 'payload'):
             return base[1][idx]
         if isinstance(base, tuple) and base[0] == 'closure':
+            return base[2][idx]
+        if isinstance(base, tuple) and base[0] == 'struct':
             return base[2][idx]
         if isinstance(base, Obj):
             return self.leaf('%s.%d' % (base.path, idx), ty)
@@ -207,6 +223,16 @@ class Exec:
             if mm:
                 return ('closure', mm.group(1), [])
             return ('unit',)
+        m = re.match(r'^const "(.*)"$', s, re.S)
+        if m:
+            txt = m.group(1)
+            return z3.StringVal(eval('"' + txt.replace('"', '\\"') + '"') if '\\' in txt else txt)
+        m = re.match(r'^const b"(.*)"$', s, re.S)
+        if m:
+            return ('tmpl', mir.decode_template(m.group(1)))
+        m = re.match(r"^const '(.)'$", s)
+        if m:
+            return ('char', m.group(1))
         m = re.match(r'^const (.*promoted\[\d+\])$', s)
         if m:
             return self.const_value(m.group(1))
@@ -258,6 +284,22 @@ class Exec:
         m = re.match(r'^Not\((.*)\)$', s)
         if m:
             return z3.Not(self.operand(m.group(1), env, st))
+        m = re.match(r'^\[(.*)\]$', s, re.S)
+        if m:
+            return ('vec', [self.operand(x, env, st) for x in _split_top(m.group(1))])
+        m = re.match(r'^([A-Za-z_][\w:]*?)(?:::<[^{]*>)? \{ (.*) \}$', s, re.S)
+        if m and not s.startswith('{'):
+            fields = []
+            names = []
+            for fld in _split_top(m.group(2)):
+                k, v = fld.split(': ', 1)
+                names.append(k.strip())
+                fields.append(self.operand(v, env, st))
+            return ('struct', m.group(1).split('::')[-1], fields, names)
+        m = re.match(r'^((?:[A-Za-z_]\w*::)+)([A-Z]\w*)\((.*)\)$', s, re.S)
+        if m:
+            ty = m.group(1).rstrip(':').split('::')[-1]
+            return ('enum', ty, m.group(2), [self.operand(x, env, st) for x in _split_top(m.group(3))])
         if re.match(r'^[A-Za-z_]\w*(?:::[A-Za-z_]\w*)*::[A-Z]\w*$', s):
             return ('variant', s)
         return self.operand(s, env, st)
@@ -336,25 +378,39 @@ class Exec:
                 outs = []
                 for (s2, val) in self.call(fn, sc[1], _split_top(sc[2]), sc[0], env, st):
                     e2 = dict(env)
-                    self.assign(sc[0], val, e2)
+                    self.assign(sc[0], val, e2, s2)
                     outs.append(('go', sc[3], e2, s2))
                 return outs
             m = re.match(r'^(_\d+|\(.*?\)) = (.*)$', t, re.S)
             if m:
-                self.assign(m.group(1), self.rvalue(m.group(2), env, st), env)
+                self.assign(m.group(1), self.rvalue(m.group(2), env, st), env, st)
                 continue
             raise Unsupported('statement: ' + t[:160])
         raise Unsupported('block %s of %s falls through' % (bb, fn.name))
 
-    def assign(self, lhs, val, env):
+    def assign(self, lhs, val, env, st=None):
         if re.match(r'^_\d+$', lhs):
             env[lhs] = val
             return
+        m = re.match(r'^\(\*(_\d+)\)$', lhs)
+        if m and st is not None:
+            tgt = env.get(m.group(1))
+            if isinstance(tgt, tuple) and tgt[0] == 'cell':
+                st.heap[tgt[1]] = val
+                return
+        m = re.match(r'^\(\(\*(_\d+)\)\.(\d+): .*\)$', lhs, re.S)
+        if m and st is not None:
+            tgt = env.get(m.group(1))
+            if isinstance(tgt, Obj):
+                st.heap[('field', tgt.path, int(m.group(2)))] = val
+                return
         raise Unsupported('assignment target ' + lhs)
 
     # ------------------------------------------------------------------------------------------------- calls
     def elems(self, base, st):
         """list of element objects of vector `base`, forking on its length -> [(state, [elems])]"""
+        if isinstance(base, tuple) and base[0] == 'vec':
+            return [(st, list(base[1]))]
         if not isinstance(base, Obj):
             raise Unsupported('iteration over %r' % (base,))
         if base.path in st.lens:
@@ -462,11 +518,217 @@ class Exec:
         if re.search(r'Vec::<.*>::push$', n):
             st.events.append(('push', a[0].path if isinstance(a[0], Obj) else str(a[0]), a[1]))
             return [(st, ('unit',))]
+        for pat in self.opaque:
+            if re.search(pat, n):
+                st.events.append(('opaque', n.split('::')[-1], a))
+                return [(st, ('unit',))]
+        r = self.call_std(fn, n, a, dest, st)
+        if r is not None:
+            return r
         # crate function: inline
         cands = [g for g in self.prog.fns if self.same_fn(g.name, n)]
         if len(cands) == 1:
             return [(s2, r) for (s2, r) in self.run_fn(cands[0], a, st)]
         raise Unsupported('call to %s (%d candidates)' % (n, len(cands)))
+
+    # ------------------------------------------------------------------------------------------------- std models (strings, options, collections)
+    def as_str(self, v):
+        if z3.is_expr(v) and v.sort() == z3.StringSort():
+            return v
+        if isinstance(v, tuple) and v[0] == 'fmt':
+            return mir.fmt_to_z3(('fmt', v[1], [self.as_str(x) if not (isinstance(x, tuple) and x[0] == 'fmt') else x for x in v[2]]))
+        raise Unsupported('not a string: %r' % (v,))
+
+    def fork_bool(self, cond, st):
+        outs = []
+        c = z3.simplify(cond)
+        if z3.is_true(c):
+            return [(st, z3.BoolVal(True))]
+        if z3.is_false(c):
+            return [(st, z3.BoolVal(False))]
+        if self.feasible(st.pc + [c]):
+            s1 = st.copy(); s1.pc.append(c); outs.append((s1, z3.BoolVal(True)))
+        if self.feasible(st.pc + [z3.Not(c)]):
+            s2 = st.copy(); s2.pc.append(z3.Not(c)); outs.append((s2, z3.BoolVal(False)))
+        return outs
+
+    def coll(self, v):
+        """explicit model of a collection object: list of elements (sets) or (key, value) pairs (maps); None = abstract"""
+        return self.memo.get(('coll', v.path)) if isinstance(v, Obj) else None
+
+    def call_std(self, fn, n, a, dest, st):
+        if re.search(r'<String as From<&str>>::from$|<String as From<String>>::from$|<&str as Into<String>>::into$|<str as ToString>::to_string$|<(String|str|&str) as (Clone|ToOwned)>::(clone|to_owned)$|<String as Deref>::deref$|String::as_str$|must_use::<String>$|<.* as Clone>::clone$|<.* as ToOwned>::to_owned$', n):
+            return [(st, a[0])]
+        if re.search(r'<(&?String|&?str|&&str) as PartialEq(<.*>)?>::(eq|ne)$', n):
+            c = self.as_str(a[0]) == self.as_str(a[1])
+            return self.fork_bool(c if n.endswith('eq') else z3.Not(c), st)
+        if re.search(r'<.* as PartialEq>::ne$', n):
+            x, y = a
+            for p, q in ((x, y), (y, x)):
+                if isinstance(q, tuple) and q[0] == 'variant':
+                    return self.fork_bool(self.disc(p, st) != self.disc(q, st), st)
+            raise Unsupported('PartialEq::ne on %r, %r' % (x, y))
+        if re.search(r'str>::ends_with::<.*>$|str::<impl str>::ends_with::<.*>$', n):
+            return self.fork_bool(z3.SuffixOf(self.as_str(a[1]), self.as_str(a[0])), st)
+        if re.search(r'str>::contains::<char>$|str::<impl str>::contains::<char>$', n):
+            if not (isinstance(a[1], tuple) and a[1][0] == 'char'):
+                raise Unsupported('contains with non-literal char')
+            return self.fork_bool(z3.Contains(self.as_str(a[0]), z3.StringVal(a[1][1])), st)
+        if n.endswith('String::is_empty'):
+            return self.fork_bool(z3.Length(self.as_str(a[0])) == 0, st)
+        if re.search(r'Argument::<.*>::new_display::<.*>$', n):
+            return [(st, a[0])]
+        if re.search(r'Arguments::<.*>::new::<\d+, \d+>$', n):
+            return [(st, ('fmtargs', a[0][1], a[1][1]))]
+        if n == 'format' or n.endswith('fmt::format'):
+            v = ('fmt', a[0][1], a[0][2])
+            try:
+                return [(st, self.as_str(v))]
+            except Unsupported:
+                return [(st, ('opaque', 'formatted'))]
+        m = re.search(r'Option::<.*>::(is_none|is_some|as_ref|unwrap|cloned|copied)$', n)
+        if m:
+            v = a[0]
+            if m.group(1) in ('as_ref', 'cloned', 'copied'):
+                return [(st, v)]
+            if not (isinstance(v, tuple) and v[0] == 'enum' and v[1] == 'Option'):
+                if isinstance(v, Obj):
+                    d = self.disc_opt(v, st)
+                    if m.group(1) == 'unwrap':
+                        raise Unsupported('unwrap of a symbolic Option')
+                    return self.fork_bool(d == (0 if m.group(1) == 'is_none' else 1), st)
+                raise Unsupported('Option method on %r' % (v,))
+            if m.group(1) == 'unwrap':
+                if v[2] != 'Some':
+                    st.events.append(('panic', 'unwrap on None'))
+                    self.panics.append(st)
+                    return []
+                return [(st, v[3][0])]
+            return [(st, z3.BoolVal((v[2] == 'None') == (m.group(1) == 'is_none')))]
+        if re.search(r'<Vec<.*> as From<\[.*\]>>::from$|Vec::<.*>::from$', n):
+            return [(st, a[0])]
+        if re.search(r'Vec::<diagnostic::Diagnostic>::push$', n):
+            st.events.append(('diag', a[1]))
+            return [(st, ('unit',))]
+        # ---- hash sets / maps
+        m = re.search(r'HashSet::<.*>::contains::<.*>$', n)
+        if m:
+            els = self.coll(a[0])
+            if els is None:
+                raise Unsupported('contains on an unmodelled set')
+            key = self.as_str(a[1])
+            return self.fork_bool(z3.Or([key == e for e in els]) if els else z3.BoolVal(False), st)
+        if re.search(r'HashSet::<.*>::iter$', n):
+            st.niter += 1
+            st.iters[st.niter] = 0
+            return [(st, ('hiter', st.niter, a[0]))]
+        m = re.search(r' as Iterator>::find::<', n)
+        if m:
+            it, clo = a[0], a[1]
+            outs = []
+            if it[0] == 'hiter':
+                # hash order is arbitrary: ANY element satisfying the predicate may be the one returned
+                els = self.coll(it[2])
+                if els is None:
+                    raise Unsupported('find on an unmodelled set')
+                none_states = [st.copy()]
+                for e in els:
+                    for (s2, r) in self.invoke(clo, [e], st.copy()):
+                        if z3.is_true(z3.simplify(r)):
+                            outs.append((s2, ('enum', 'Option', 'Some', [e])))
+                    nxt = []
+                    for ns in none_states:
+                        for (s2, r) in self.invoke(clo, [e], ns):
+                            if z3.is_false(z3.simplify(r)):
+                                nxt.append(s2)
+                    none_states = nxt
+                outs += [(ns, ('enum', 'Option', 'None', [])) for ns in none_states]
+                return outs
+            # ordered iterator over a concrete vector
+            base = it[2]
+            els = base[1] if isinstance(base, tuple) and base[0] == 'vec' else None
+            if els is None:
+                raise Unsupported('find on %r' % (base,))
+            states = [st]
+            for e in els:
+                nxt = []
+                for s0 in states:
+                    for (s2, r) in self.invoke(clo, [e], s0):
+                        if z3.is_true(z3.simplify(r)):
+                            outs.append((s2, ('enum', 'Option', 'Some', [e])))
+                        else:
+                            nxt.append(s2)
+                states = nxt
+            outs += [(s0, ('enum', 'Option', 'None', [])) for s0 in states]
+            return outs
+        m = re.search(r'HashMap::<.*>::(get|contains_key)::<.*>$', n)
+        if m:
+            pairs = self.coll(a[0])
+            if pairs is not None:
+                key = self.as_str(a[1])
+                outs = []
+                neg = []
+                for (k, v) in pairs:
+                    if self.feasible(st.pc + neg + [key == k]):
+                        s2 = st.copy(); s2.pc += neg + [key == k]
+                        outs.append((s2, ('enum', 'Option', 'Some', [v]) if m.group(1) == 'get' else z3.BoolVal(True)))
+                    neg.append(key != k)
+                if self.feasible(st.pc + neg):
+                    s2 = st.copy(); s2.pc += neg
+                    outs.append((s2, ('enum', 'Option', 'None', []) if m.group(1) == 'get' else z3.BoolVal(False)))
+                return outs
+            return self.abstract_lookup(a[0], a[1], st, m.group(1))
+        if re.search(r'HashMap::<.*>::insert$', n):
+            st.events.append(('insert', a[0].path, a[1], a[2]))
+            st.facts[('nonempty', a[0].path)] = True
+            return [(st, ('opaque', 'old'))]
+        if re.search(r'HashMap::<.*>::is_empty$', n):
+            if ('nonempty', a[0].path) in st.facts:
+                return [(st, z3.BoolVal(not st.facts[('nonempty', a[0].path)]))]
+            s1, s2 = st, st.copy()
+            s1.facts[('nonempty', a[0].path)] = False
+            s2.facts[('nonempty', a[0].path)] = True
+            return [(s1, z3.BoolVal(True)), (s2, z3.BoolVal(False))]
+        if re.search(r'HashMap::<.*>::entry$', n):
+            outs = []
+            for (s2, r) in self.abstract_lookup(a[0], a[1], st, 'get'):
+                if r[2] == 'Some':
+                    outs.append((s2, ('enum', 'Entry', 'Occupied', [('occupied', a[0].path, a[1], r[3][0])])))
+                else:
+                    outs.append((s2, ('enum', 'Entry', 'Vacant', [('vacant', a[0].path, a[1])])))
+            return outs
+        if re.search(r'OccupiedEntry::<.*>::get$', n):
+            return [(st, a[0][3])]
+        if re.search(r'VacantEntry::<.*>::insert$', n):
+            st.events.append(('insert', a[0][1], a[0][2], a[1]))
+            st.facts[('nonempty', a[0][1])] = True
+            return [(st, a[1])]
+        return None
+
+    def disc_opt(self, v, st):
+        p = v.path + '#disc'
+        d = self.memo.setdefault(p, z3.Int(p))
+        if ('dom', p) not in st.lens:
+            st.pc += [d >= 0, d < 2]
+            st.lens[('dom', p)] = 2
+        return d
+
+    def abstract_lookup(self, m, key, st, kind):
+        """lookup in an abstract map (contents unknown): the result is None or Some(previous value); recorded as a fact so that the
+        oracle can relate it to the abstract history; emptiness facts are kept consistent."""
+        outs = []
+        kdesc = str(key) if z3.is_expr(key) else repr(key)
+        if st.facts.get(('nonempty', m.path)) is not False:
+            s1 = st.copy()
+            s1.ncall += 1
+            prev = self.obj('%s#hit%d' % (m.path, s1.ncall), 'Method')
+            s1.facts[('nonempty', m.path)] = True
+            s1.events.append(('lookup', m.path, kdesc, 'hit', prev.path))
+            outs.append((s1, ('enum', 'Option', 'Some', [prev]) if kind == 'get' else z3.BoolVal(True)))
+        s2 = st.copy()
+        s2.events.append(('lookup', m.path, kdesc, 'miss', None))
+        outs.append((s2, ('enum', 'Option', 'None', []) if kind == 'get' else z3.BoolVal(False)))
+        return outs
 
     @staticmethod
     def same_fn(defname, callee):
